@@ -632,6 +632,18 @@ def generate(tpl_path, repo, canary=False, mutant=None):
                           (r'#\[verifier::exec_allows_no_decreases_clause\]', 'no_decreases')):
             if re.search(pat, ls):
                 tb.append({'line': i, 'kind': what, 'text': ls.strip()[:160]})
+    # name the item an external_body attribute applies to (next non-empty line), and list bodiless `proof fn`s (axioms)
+    tl = text.split('\n')
+    for t in tb:
+        if t['kind'] in ('external_body', 'external'):
+            k = t['line']
+            while k < len(tl) and not strip_comments(tl[k]).strip():
+                k += 1
+            if k < len(tl):
+                t['text'] = (t['text'] + ' ' + strip_comments(tl[k]).strip())[:200]
+    code = strip_comments(text)
+    for mm in re.finditer(r'\bproof fn\s+(\w+)[^{};]*;', code):
+        tb.append({'line': code.count('\n', 0, mm.start()) + 1, 'kind': 'axiom (bodiless proof fn)', 'text': mm.group(1)})
     meta['trusted_scan'] = tb
     return text, meta
 
